@@ -43,6 +43,17 @@ BASE_PROGS = [
     ('depth3', 'i64',
      'join! { Some(1_i64) |> |x| try_join! { Some(x) |> |y| join_spawn! { Some(y) |> |z| z + 1, Some(100_i64) }.pipe(|(a, b)| a.unwrap() + b.unwrap()), Some(1000_i64), map => |a, b| a + b }.unwrap() }.unwrap()',
      '1102'),
+    # a brace-delimited nested macro as a WHOLE operand is an ordinary expression of its branch (not a `{..}` block operand): it is
+    # evaluated where the chain reaches it - after the earlier branches of the step, on the branch's own thread in the thread kinds
+    ('nested-macro-as-initial-value-order', 'Vec<i64>',
+     '{ let log = std::cell::RefCell::new(Vec::new()); let lg = |i: i64| { log.borrow_mut().push(i); Some(i) }; let r = join! { lg(1) |> |x| x + 1, join! { lg(2), lg(3) } -> |t: (Option<i64>, Option<i64>)| t.0 }; let _ = r; let v = log.borrow().clone(); v }',
+     'vec![1, 2, 3]'),
+    ('nested-macro-as-fallback-operand-order', 'Vec<i64>',
+     '{ let log = std::cell::RefCell::new(Vec::new()); let lg = |i: i64| { log.borrow_mut().push(i); Some(i) }; let r = try_join! { lg(1) <| try_join! { lg(2) } ~|> |x| x, lg(3) }; let _ = r; let v = log.borrow().clone(); v }',
+     'vec![1, 2, 3]'),
+    ('nested-spawn-macro-as-initial-value-thread-names', 'String',
+     '{ fn tn() -> Option<String> { Some(std::thread::current().name().unwrap_or("?").to_string()) } std::thread::Builder::new().name("p".into()).spawn(|| join_spawn! { Some(0_i64) |> |x| x, join_spawn! { tn(), tn() } -> |t: (Option<String>, Option<String>)| Some(t.0.unwrap() + "/" + &t.1.unwrap()) }.1.unwrap()).unwrap().join().unwrap() }',
+     '"p_join_1_join_0/p_join_1_join_1".to_string()'),
     ('thirteen-branches', 'i64',
      'join! { ' + ', '.join('Some(%d_i64) |> { let k = %d_i64; move |x: i64| x + k } ~|> |x: i64| x * 2' % (i, i) for i in range(13)) + ', then => |' + ', '.join('a%d: Option<i64>' % i for i in range(13)) + '| ' + ' + '.join('a%d.unwrap() * %d' % (i, i + 1) for i in range(13)) + ' }',
      str(sum((i + i) * 2 * (i + 1) for i in range(13)))),
